@@ -93,6 +93,8 @@ type Engine struct {
 	recDefs     map[string]bool
 	symUsed     map[string]int // names already given to symbolic structs/pointers (identity is the name)
 	hist        histHome
+	tasserts    map[string]TupleV // (interface term / asserted type) -> (value, ok)
+	sameState   *State
 	inLoop      int
 	boxed       map[string]Val
 	notes       []string
